@@ -9,6 +9,8 @@ CONSTANTS
  FixAllParts = TRUE
  FixHashAfterStore = TRUE
  DevIgnoreCompleteErr = FALSE
+ DevNegAck = FALSE
+ DevEmptyAck = FALSE
 INIT Init
 NEXT Next
 INVARIANTS EmitSched C32_Stored C32_Acked SessionAccounting HashFollowsParts
